@@ -561,7 +561,7 @@ def neighbour_tables(ctx):
     p2 = arg_names(f2)
     r2 = [s for s in roles.stores(f2.body, d2, lv=False) if s.op == "return"]
     inc = "get_element_to_vertex_matrix(%s,%s)" % (p2[0], p2[1])
-    r.check(len(r2) == 1 and r2[0].value == "%s.T.dot(%s)" % (inc, inc), "get_element_to_element_matrix", GRID, f2.name, f2.lineno, "element-element vertex counts", "element-to-element matrix is `%s`, expected A^T A of the incidence matrix" % (r2[0].value[:120] if r2 else None))
+    r.check(len(r2) == 1 and r2[0].value == roles.expect("%s.T.dot(%s)" % (inc, inc), d2, f2.body[-1].lineno, lv=False), "get_element_to_element_matrix", GRID, f2.name, f2.lineno, "element-element vertex counts", "element-to-element matrix is `%s`, expected A^T A of the incidence matrix" % (r2[0].value[:120] if r2 else None))
     # vertex and element neighbours: CSR rows
     f3 = m.fn("Grid._compute_vertex_neighbors")
     S3 = {s.target: s.value for s in roles.stores(f3.body, roles.Defs(f3), lv=False) if s.op == "="}
